@@ -88,7 +88,7 @@ fn boundary(ty: &str, extra: &Option<String>, lang: &str) -> Vec<String> {
         "PERCENT" => v(&["10%", "0%", "-5%", "%7", "150%"]),
         "MONEY" => v(&["10 usd", "$0", "5 aed", "-3 try", "1k eur", "99999999999999999999 jpy"]),
         "DATE" => v(&["15/6/2021", "1/1/1", "31/12/9999", "29/2/2020", "31/1/2021", "15/12/2020", "15/11/2020", "1/3/2021", "today"]),
-        "TIME" => v(&["11:30", "0:00", "23:59:59", "11pm", "12:30 am"]),
+        "TIME" => v(&["11:30", "0:00", "23:59:59", "11pm", "12:30 am", "23:59:60", "24:00"]),
         "DATE_TIME" => v(&["1/1/2021 at 11:30", "31/12/9999 at 23:59:59", "1/1/2021 at 25", "1/1/2021 at 24", "1/1/2021 at -1"]),
         "DURATION" => {
             if lang == "tr" {
@@ -179,7 +179,7 @@ fn instantiate(ch: &mut Chooser, lang: &str, pat: &str) -> String {
 // ---- multi-line pool ---------------------------------------------------------------------
 
 const LINE_POOL: [&str; 12] = ["", "   ", "# a comment", "1 + 2", "10 usd to try", "1 +", "(", "=", "1 usd + 1 km", "15/11/2021 + 1 month", "[NUMBER:abc]", "0xFFFFFFFFFFFFFFFFFF + 1"];
-const VAR_POOL: [&str; 4] = ["a = 5", "a + 1", "a b = 1 +", "b = a * 2"];
+const VAR_POOL: [&str; 8] = ["a = 5", "a + 1", "a b = 1 +", "b = a * 2", "a = a + 1", "a = a", "a b = a b * 2", "b = (b)"];
 
 impl Prop for C01 {
     type Case = Case;
